@@ -2,7 +2,7 @@ SPECIFICATION Spec
 CONSTANTS
   NVarsSet <- MC_N2
   Grid <- MC_GridFull2
-  MaxExcluded = 2
+  MaxExcluded = 1
   AllowMalformed = FALSE
   AsFound_SignedRelativeTest = FALSE
   AsFound_NearZeroBandIgnoresDrift = FALSE
